@@ -160,7 +160,11 @@ class Interp:
             self.binder_stack[-1].append(f)
             return
         self.pc.append(f)
-        self.solver.add(f)
+        # the in-process solver used for path pruning only sees the quantifier-free facts (a subset
+        # that is unsatisfiable makes the whole path condition unsatisfiable); quantified reasoning
+        # happens in the discharge of obligations, with time limits and a second solver
+        if not _has_quant(f):
+            self.solver.add(f)
 
     def check(self, f) -> str:
         self.solver.push()
@@ -221,7 +225,8 @@ class Interp:
         from .solve import _cli_check
         s = z3.Solver()
         for f in self.pc:
-            s.add(f)
+            if not _has_quant(f):
+                s.add(f)
         s.add(extra)
         try:
             res, _ms = _cli_check(s.to_smt2(), "z3", 3)
@@ -362,6 +367,7 @@ class Interp:
 
     def snapshot(self):
         snap = dict(self.heap)
+        snap[("__alive__", "")] = self.alive
         if not hasattr(self, "snapshots"):
             self.snapshots = []
         self.snapshots.append(snap)
@@ -656,6 +662,10 @@ class Interp:
             if isinstance(tb, TUnion):
                 if ta == tb and all(self.eq_is_structural(x) for x in ta.alts if x is not TNone):
                     return a.term == b.term
+                if ta == tb:
+                    return z3.Or([z3.And(ta.is_alt(i, a.term), tb.is_alt(i, b.term),
+                                         z3.BoolVal(True) if alt is TNone else self.py_eq(SV(alt, ta.proj(i, a.term)), SV(alt, tb.proj(i, b.term)), fr))
+                                  for i, alt in enumerate(ta.alts)])
                 raise Unsupported("== between different unions")
             return z3.Or([z3.And(ta.is_alt(i, a.term), self.py_eq(SV(alt, ta.proj(i, a.term)), b, fr))
                           for i, alt in enumerate(ta.alts) if alt is not TNone] + [z3.BoolVal(False)])
@@ -743,8 +753,37 @@ class Interp:
         return self.cdb.types.obj_eq(self, a, b, fr)
 
     def key_of(self, v, kty: Ty) -> object:
-        """Term used as a dict/set key (after coercion to the key type)."""
-        return self.coerce(v, kty).term
+        """Term used as a dict/set key (after coercion to the key type), normalised so that SMT
+        equality of keys coincides with Python ==/hash (fields with compare=False are replaced by a
+        fixed default)."""
+        return self.norm_key(self.coerce(v, kty).term, kty)
+
+    def norm_key(self, term, ty: Ty):
+        if isinstance(ty, TRec):
+            if self.cdb.types.rec_eq_structural(ty):
+                return term
+            if self.w.find_method(ty.cls, "__eq__") is not None:
+                raise Unsupported(f"dict key of class {ty.cls} with user __eq__")
+            cmp = {f.name: f.compare for f in self.w.all_fields(ty.cls)}
+            parts = []
+            for n, ft in ty.fields:
+                if cmp.get(n, True):
+                    parts.append(self.norm_key(acc(ty.get(term, n)), ft))
+                else:
+                    parts.append(z3.Const("dflt_" + _m(ft.name), ft.sort()))
+            return ty.mk(*parts)
+        if isinstance(ty, TUnion):
+            out = None
+            for i in reversed(range(len(ty.alts))):
+                a = ty.alts[i]
+                v = ty.inject(i) if a is TNone else ty.inject(i, self.norm_key(ty.proj(i, term), a))
+                out = v if out is None else z3.If(ty.is_alt(i, term), v, out)
+            return out
+        if isinstance(ty, TTuple):
+            return ty.mk(*[self.norm_key(ty.get(term, i), e) for i, e in enumerate(ty.elems)])
+        if isinstance(ty, TOpt):
+            return z3.If(ty.is_none(term), term, ty.some(self.norm_key(ty.val(term), ty.inner)))
+        return term
 
     # ------------------------------------------------------------------ dict / set helpers
     def dict_len(self, d: SV):
@@ -835,6 +874,22 @@ def acc(t):
     except z3.Z3Exception:
         pass
     return t
+
+
+def _has_quant(t) -> bool:
+    seen = set()
+    stack = [t]
+    while stack:
+        x = stack.pop()
+        i = x.get_id()
+        if i in seen:
+            continue
+        seen.add(i)
+        if z3.is_quantifier(x):
+            return True
+        if z3.is_app(x):
+            stack.extend(x.children())
+    return False
 
 
 def _has_seq(t) -> bool:
